@@ -248,6 +248,25 @@ def run_extension_rule(run, rule_id="C09.ext"):
                     ok = ext and fill in (("'1'", '"1"') if neg else ("'0'", '"0"'))
                     exp = "<bits>.iter_extend('1')" if neg else "<bits>.iter_extend('0')"
                 run.ob(bool(ok), f"{own}.{fn}", file=rel, line=c.lineno, detail=f"fill#{k}", expected=exp + " (all target bits written)", found=src(a)[:60] if a is not None else "?")
+    # subtraction = addition of the negated right operand: the negation is formed at the width of the RESULT
+    for rel, own in (("cohdl/_core/_unsigned.py", "Unsigned"), ("cohdl/_core/_signed.py", "Signed")):
+        mod = idx.mod(rel)
+        g = mod.func(f"{own}.sub")
+        p_rhs = g.node.args.args[1].arg
+        negs = [n for n in walk_local(g.node) if isinstance(n, ast.Assign) and isinstance(n.value, ast.UnaryOp) and isinstance(n.value.op, ast.USub) and dotted(n.value.operand) == p_rhs]
+        vec_negs = []
+        for n in negs:
+            # the negation of a VECTOR operand (not the integer branch)
+            int_branch = any(isinstance(anc, ast.If) and "int" in src(anc.test) and any(x is n for b in anc.body for x in ast.walk(b)) for anc in mod.parents.ancestors(n))
+            if not int_branch:
+                vec_negs.append(n)
+        if not vec_negs:
+            raise AnalysisError(f"{own}.sub: negation of the right operand not found")
+        for n in vec_negs:
+            # some earlier statement on every path to it widens a narrower operand: `if rhs.width < self.width: rhs = rhs.resize(self.width)`
+            widened = any(isinstance(a, ast.Assign) and dotted(a.targets[0]) == p_rhs and isinstance(a.value, ast.Call) and isinstance(a.value.func, ast.Attribute) and a.value.func.attr == "resize"
+                          and dotted(a.value.func.value) == p_rhs and a.lineno < n.lineno for a in walk_local(g.node))
+            run.ob(widened, f"{own}.sub", file=rel, line=n.lineno, detail="negate-at-result-width", expected=f"{p_rhs} is extended to the result width before `-{p_rhs}` (two's complement of a narrower operand differs)", found="extended" if widened else "negated in its own width")
     # two's complement negation wraps (like numeric_std), it never saturates
     sm = idx.mod("cohdl/_core/_signed.py")
     ng = sm.func("Signed.__neg__")
